@@ -28,6 +28,7 @@ Ltac crush_ok O :=
   | context [some ?a] => destruct (some a) eqn:?
   | context [s_dclosed ?a] => destruct (s_dclosed a) eqn:?
   | context [view_of ?a ?b] => destruct (view_of a b) eqn:?
+  | context [lpc_of ?a] => destruct (lpc_of a) eqn:?
   end; cbn in O; try discriminate O; try congruence.
 
 Lemma wlog_changes s l s' i :
